@@ -162,6 +162,8 @@ class C10Engine(Engine):
                 if rec["label"].startswith("pre-commit"):
                     facts["extra"]["images_with_hot_journal"] = facts["extra"].get("images_with_hot_journal", 0) + 1
                 vs = self.nobody_returns(spec, rec, facts)
+                if not vs:
+                    vs = self.new_clients_served(spec, rec, facts)
                 for v in vs:
                     v["image"] = [rec["event"], rec["point"], rec["label"]]
                 viol += vs
@@ -408,6 +410,62 @@ class C10Engine(Engine):
                 viol.append(self.v("store-empties-when-nobody-returns",
                                    "%s: %d s after the restart with no client the store still holds %r"
                                    % (where, int(2 * (EXPIRY + PERIOD)), last.counts()), rec.get("step")))
+        finally:
+            w2.dispose()
+        return viol
+
+    def new_clients_served(self, spec, rec, facts):
+        """(d) the restarted server serves clients that were never there before: every app that
+        has records in the image gets three new sides, each allocates (the allocator picking the
+        smallest name it thinks is free), claims, opens, adds and lists; no command may fail
+        internally and no allocated name may be one that is in use in the image"""
+        viol = []
+        root = os.path.dirname(rec["path"])
+        d = copy_image(rec["path"], root, "nc")
+        modes = dict(spec["rng_modes"], choice="min")
+        w2 = World(spec["seed"], spec["cfg"], modes, dirname=d, t0=rec["t"] + 0.001, name="c10nc", rng_salt="-newcomers")
+        w2.wall_jump = rec.get("wall_jump", 0.0)
+        where = "image at step %s (%s, point %s)" % (rec.get("step"), rec["label"], rec["point"])
+        try:
+            ev = w2.start(kind="restart")
+            if any(e.get("kind") == "start_failed" for e in ev.errors):
+                return viol          # reported by (b)
+            img = ev.pre if ev.pre is not None else ev.post
+            apps = sorted(a for a in img.apps() if isinstance(a, str))[:2]
+            cid = 700000
+            for app in apps:
+                used = set(n.name for n in img.nameplates if n.app == app)
+                got = []
+                for k in range(3):
+                    cid += 1
+                    steps = [{"op": "connect", "c": cid},
+                             {"op": "send", "c": cid, "m": {"type": "bind", "appid": app, "side": "newcomer%d" % k}},
+                             {"op": "send", "c": cid, "m": {"type": "allocate"}},
+                             {"op": "send", "c": cid, "m": {"type": "claim", "nameplate": {"ref": "allocated", "c": cid}}},
+                             {"op": "send", "c": cid, "m": {"type": "open", "mailbox": {"ref": "claimed", "c": cid}}},
+                             {"op": "send", "c": cid, "m": {"type": "add", "phase": "p", "body": "00"}},
+                             {"op": "send", "c": cid, "m": {"type": "list"}}]
+                    for st in steps:
+                        for e2 in S.exec_step(w2, st, rec.get("step")):
+                            facts["events"] += 1
+                            for e in e2.errors:
+                                if e.get("kind") in ("logged_error", "internal_error"):
+                                    viol.append(self.v("serves-new-clients",
+                                                       "%s: restarted server, new client of app %r sends %r: %s: %s at %s"
+                                                       % (where, app, st.get("m", {}).get("type", st["op"]), e.get("type"),
+                                                          e.get("text"), e.get("where")), rec.get("step")))
+                                    return viol
+                    name = w2.conns[cid].last.get("allocated")
+                    if name is None or "claimed" not in w2.conns[cid].last:
+                        viol.append(self.v("serves-new-clients", "%s: new client of app %r was not served: knows %r"
+                                           % (where, app, sorted(w2.conns[cid].last)), rec.get("step")))
+                        return viol
+                    if name in used or name in got:
+                        viol.append(self.v("serves-new-clients", "%s: new client of app %r was allocated %r, which is in use"
+                                           % (where, app, name), rec.get("step")))
+                        return viol
+                    got.append(name)
+                facts["extra"]["new_clients_served"] = facts["extra"].get("new_clients_served", 0) + len(got)
         finally:
             w2.dispose()
         return viol
